@@ -71,6 +71,12 @@ func (b *buffer) get(v wireType) {
 	if b.err = v.UnmarshalBinary(b.data[b.i:]); b.err != nil {
 		return
 	}
+	// the width is derived from the decoded value, never let it move
+	// the offset past the data
+	if b.i+v.width() > len(b.data) {
+		b.err = ErrMissingData
+		return
+	}
 	b.i += v.width()
 }
 
